@@ -4,7 +4,8 @@ AlignmentFilesCases.tla enumerates alignments over a few ids (one not starting w
 characters), checks OneRowPerEntry, RowsNumbered, ReadBackIsPrefix and RoundTrip on the write / read machine and prints
 the rows of both formats; every alignment is written with save_parangonada_alignment and save_alignment_for_ASAP, the
 files are tokenised independently and compared with the specified rows, and read back with load_parangonada_alignment
-and load_alignment_from_ASAP, which must return the alignment.
+and load_alignment_from_ASAP, which must return the alignment.  The rows of a Nakamura corresp file (a read-only
+format here) are serialised mechanically from the specification and read with load_nakamuracorresp.
 
 Not a listed property: not registered in MANIFEST.json, prints DEVIATION lines (never VIOLATION), writes growth/G10.json."""
 import json
@@ -32,6 +33,7 @@ def main():
     import partitura.performance as P
     from partitura.io.exportparangonada import save_parangonada_alignment, save_alignment_for_ASAP
     from partitura.io.importparangonada import load_parangonada_alignment, load_alignment_from_ASAP
+    from partitura.io.importnakamura import load_nakamuracorresp
     tier = common.tier()
     t0 = time.time()
     r = tlc.run("AlignmentFilesCases", "AlignmentFilesCases.%s.cfg" % tier, "g10/mc", workers=8, coverage=True, timeout=7000, heap="4g")
@@ -89,6 +91,23 @@ def main():
                 dev("asap.read_back" + (".score_id_not_starting_with_n" if other_id else ""), c["al"], back, c["al"])
         except Exception as ex:
             dev("asap.raises", c["al"], "%s: %s" % (type(ex).__name__, str(ex)[:200]), "no exception")
+        # ---- Nakamura corresp (read only): the rows of the specification are serialised mechanically
+        f = os.path.join(wd, "corresp.txt")
+        try:
+            with open(f, "w") as fh:
+                fh.write("// alignID alignOntime alignSitch alignPitch alignOnvel refID refOntime refSitch refPitch refOnvel\n")
+                for j, (a, b) in enumerate(c["crows"]):
+                    left = "%s\t%.3f\tC4\t60\t64" % (a, 0.5 * j) if a != "*" else "*\t-1\t*\t-1\t-1"
+                    right = "%s\t%.3f\tC4\t60\t64" % (b, 1.0 * j) if b != "*" else "*\t-1\t*\t-1\t-1"
+                    fh.write(left + "\t" + right + "\n")
+            perf, ref, back = load_nakamuracorresp(f)
+            if norm(back) != c["al"]:
+                dev("corresp.read_back", c["al"], norm(back), c["al"])
+            if sorted(str(x) for x in perf["id"]) != sorted(e["pid"] for e in c["al"] if "pid" in e) or \
+               sorted(str(x) for x in ref["id"]) != sorted(e["sid"] for e in c["al"] if "sid" in e):
+                dev("corresp.note_arrays", c["al"], [list(map(str, perf["id"])), list(map(str, ref["id"]))], "performed ids / score ids of the alignment")
+        except Exception as ex:
+            dev("corresp.raises" + (".single_row" if len(c["al"]) == 1 else ""), c["al"], "%s: %s" % (type(ex).__name__, str(ex)[:200]), "no exception")
     import shutil
     shutil.rmtree(wd, ignore_errors=True)
     out = os.path.join(common.OUT, "growth")
